@@ -177,6 +177,9 @@ func RunEngBWorker(c *Ctx) {
 }
 
 // runEngB runs `runs` engine-B rounds; violations are charged to props C04/C05/C16.
+// engBKillAll makes every round kill one worker (used by C06).
+var engBKillAll bool
+
 func runEngB(c *Ctx, runs int) {
 	r := c.Rep
 	self := os.Getenv("VERIF_HARNESS_BIN")
@@ -205,7 +208,7 @@ func engBRound(c *Ctx, r *rep.Report, self string, run int) {
 	cfg := rtx.Config(gcfg)
 	nw := 3 + rng.Intn(4)
 	ncalls := 8 + rng.Intn(12)
-	kill := run%4 == 3
+	kill := run%4 == 3 || engBKillAll
 	info := map[string]interface{}{"prop": c.Prop, "seed": c.Seed, "index": run, "engine": "B", "workers": nw, "calls_per_worker": ncalls, "kill": kill, "sha256": sha}
 	var cmds []*exec.Cmd
 	for w := 0; w < nw; w++ {
@@ -314,7 +317,7 @@ func engBRound(c *Ctx, r *rep.Report, self string, run int) {
 		return
 	}
 	if obsViol != "" {
-		r.Violate([]string{"C05"}, "engineB|observer|"+strings.Fields(obsViol)[0]+"-"+strings.Fields(obsViol)[1], "engine B observer (seqlock sample): "+obsViol, info)
+		r.Violate(kp(kill, "C05"), "engineB|observer|"+strings.Fields(obsViol)[0]+"-"+strings.Fields(obsViol)[1], "engine B observer (seqlock sample): "+obsViol, info)
 	}
 	// ---- merge logs
 	var recs []bRecord
@@ -380,7 +383,7 @@ func engBRound(c *Ctx, r *rep.Report, self string, run int) {
 			}
 		case "fresh":
 			if !x.Ok {
-				r.Violate([]string{"C05"}, "engineB|fresh-open-failed|"+errClassStr(x.Err), fmt.Sprintf("worker %d: opening the directory failed: %s", x.W, x.Err), info)
+				r.Violate(kp(kill, "C05"), "engineB|fresh-open-failed|"+errClassStr(x.Err), fmt.Sprintf("worker %d: opening the directory failed: %s", x.W, x.Err), info)
 			} else {
 				ops = append(ops, porcupine.Operation{ClientId: x.W, Input: bIn{}, Output: bOut{Ok: true, Journal: x.Out}, Call: i.T, Return: x.T})
 			}
@@ -407,7 +410,7 @@ func engBRound(c *Ctx, r *rep.Report, self string, run int) {
 	// ---- final state
 	fd, names, err := stx.FreshView(dir, cfg)
 	if err != nil {
-		r.Violate([]string{"C05", "C04"}, "engineB|final-open-failed|"+errClass(err), "a fresh handle cannot open the directory at the end: "+err.Error(), info)
+		r.Violate(kp(kill, "C05", "C04"), "engineB|final-open-failed|"+errClass(err), "a fresh handle cannot open the directory at the end: "+err.Error(), info)
 		return
 	}
 	refs, logs, _ := gen.ParseDump(fd)
@@ -433,16 +436,16 @@ func engBRound(c *Ctx, r *rep.Report, self string, run int) {
 		model.Apply(bTxn(e.id, gcfg.HashSize()), e.ui)
 	}
 	if want := model.Dump(); want != fd {
-		r.Violate([]string{"C04"}, "engineB|final-state-is-not-the-fold-of-its-journal", "the final state is not the fold of the committed transactions in journal order: "+gen.DiffLines(want, fd), info)
+		r.Violate(kp(kill, "C04"), "engineB|final-state-is-not-the-fold-of-its-journal", "the final state is not the fold of the committed transactions in journal order: "+gen.DiffLines(want, fd), info)
 	}
 	for id := range acked {
 		if !inJ[id] {
-			r.Violate([]string{"C04"}, "engineB|acked-transaction-lost", fmt.Sprintf("Add of t%d returned nil but it is not in the final state (journal %s)", id, journal), info)
+			r.Violate(kp(kill, "C04"), "engineB|acked-transaction-lost", fmt.Sprintf("Add of t%d returned nil but it is not in the final state (journal %s)", id, journal), info)
 		}
 	}
 	for id, e := range failed {
 		if inJ[id] {
-			r.Violate([]string{"C04"}, "engineB|failed-transaction-visible", fmt.Sprintf("Add of t%d failed (%s) but it is in the final state", id, e), info)
+			r.Violate(kp(kill, "C04"), "engineB|failed-transaction-visible", fmt.Sprintf("Add of t%d failed (%s) but it is in the final state", id, e), info)
 		}
 	}
 	ops = append(ops, porcupine.Operation{ClientId: 99, Input: bIn{}, Output: bOut{Ok: true, Journal: journal}, Call: endT + 2000, Return: endT + 3000})
@@ -454,7 +457,7 @@ func engBRound(c *Ctx, r *rep.Report, self string, run int) {
 		for _, o := range ops {
 			fmt.Fprintf(&sb, "c%d %+v -> %+v [%d,%d]\n", o.ClientId, o.Input, o.Output, o.Call, o.Return)
 		}
-		r.Violate([]string{"C04"}, "engineB|history-not-linearizable", "no sequential order explains the recorded history:\n"+trimTo(sb.String(), 3000), info)
+		r.Violate(kp(kill, "C04"), "engineB|history-not-linearizable", "no sequential order explains the recorded history:\n"+trimTo(sb.String(), 3000), info)
 	case porcupine.Unknown:
 		r.Inconclusive++
 		r.Note("engine B: linearizability checker timed out on %d operations", len(ops))
@@ -533,4 +536,13 @@ func bModel() porcupine.NondeterministicModel {
 		},
 		Equal: func(a, b interface{}) bool { return a.(string) == b.(string) },
 	}
+}
+
+// kp: in a round where a worker was killed, lost/partial transactions and unopenable
+// directories also refute C06.
+func kp(kill bool, props ...string) []string {
+	if kill {
+		return append(props, "C06")
+	}
+	return props
 }
